@@ -8,7 +8,7 @@ TRUST = ("Trusted base: TLC 1.8; the harness's raw decoder (field extraction + R
          "Python-generated dictionaries / value tables. Bounds: alphabets, history lengths and geometry as recorded in the evidence.")
 
 CLAIMED = {
- "C01": ("model_checking", "5 C01", "TLC trace validation of real executions against the CfbTree abstract model (TLA+); scripts from MC_Tree transition coverage + seeded random drivers; design level: InvAbs + InvData of MC_Phys (refinement of the abstract tree by CfbPhys including stream bytes, exhaustive at tiny geometry); the histories of the C15 / C08 generators and the geometry-threshold histories are judged here too",
+ "C01": ("model_checking", "5 C01", "TLC trace validation of real executions against the CfbTree abstract model (TLA+); scripts from MC_Tree transition coverage + seeded random drivers; design level: InvAbs + InvData of MC_Phys (refinement of the abstract tree by CfbPhys including stream bytes, exhaustive at tiny geometry); the histories of the C15 / C08 generators and the geometry-threshold histories are judged here too; MC_Api: the API layer (CfbApi) refines CfbTree - allowed result kinds, abstraction of names / kinds / lengths / metadata, nested storages and every path spelling (exhaustive at tiny geometry)",
          "Every result, listing, entry and stream byte of every generated history is compared by TLC with the total abstract model; the MC_Tree graph makes (state x operation) coverage systematic."),
  "C02": ("model_checking", "5 C02", "TLC trace validation: strict and permissive reopen dumps of the un-flushed bytes after every operation must equal the CfbTree state; forked continuation on the reopened file; design level: InvOpen of MC_Phys (every image of the write-path model is accepted by the open-path model CfbOpen) and InvThrough of MC_Fault (the file decoded from the actual writes holds exactly the in-memory tables); fidelity: Trace_Open",
          "Crash points = every operation boundary of every history, both modes, both versions, including directory/FAT/MiniFAT (thorough: DIFAT) growth."),
@@ -20,7 +20,7 @@ CLAIMED = {
          "Full parameter grids over boundary lengths for write-shrink-grow, reuse after removal, and migrations."),
  "C09": ("model_checking", "5 C09", "TLC trace validation with name dictionaries: fold, order and validity computed in TLA+ from UTF-16 unit sequences; path spelling normalised by the model",
          "Covers ASCII, cased and caseless non-ASCII, supplementary-plane and boundary-length names; exceptional case mappings excluded (no independent source)."),
- "C10": ("model_checking", "5 C10", "TLC trace validation: every refused call must leave the image hash unchanged and the model state untouched; refusals enumerated from the MC_Tree graph",
+ "C10": ("model_checking", "5 C10", "TLC trace validation: every refused call must leave the image hash unchanged and the model state untouched; refusals enumerated from the MC_Tree graph; design level: InvNoEffect of MC_Api (CfbApi = the API layer of lib.rs on CfbPhys: every check precedes every effect, also inside the loops of create_storage_all / remove_storage_all; exhaustive at tiny geometry); fidelity: the error kind of every recorded refusal against CfbApi's check order (Trace_Phys); a call refused although the model lets it succeed is held to the same no-effect rule",
          "Refusal x state coverage is measured on the model graph, not hoped for."),
  "C06": ("model_checking", "5 C06", "CfbHandle (TLA+ transcription of the stream cache) model checked against a reference byte vector; MC_Handle transition coverage and random call sequences replayed on real handles and judged by TLC (Trace_Handle) for every max_buffer_size; a handle that outlives its CompoundFile keeps obeying the byte-vector model for everything it answers with Ok",
          "Exhaustive at model geometry for several buffer sizes; real-scale replays under six buffer sizes x two versions with extreme seek arguments."),
@@ -30,15 +30,15 @@ CLAIMED = {
          "Every single fault position of the workloads (pairs in thorough) with retry of the failed call."),
  "C15": ("model_checking", "5 C15", "TLC trace validation of net-zero cycles (checked on the model) with a NoGrowth assertion on logged file lengths; NoGrowth is an invariant of MC_Phys in cycle mode (CfbPhys at tiny geometry), bound to the code by Trace_Phys",
          "Cycle templates x sizes x mini-stream fill levels at and around sector multiples."),
- "C17": ("model_checking", "5 C17", "TLC trace validation of metadata setters/getters against CfbTree; FILETIME quantisation table from Python big integers",
+ "C17": ("model_checking", "5 C17", "TLC trace validation of metadata setters/getters against CfbTree; FILETIME quantisation table from Python big integers; design level: InvMeta of MC_Phys (CfbPhys with colour, CLSID, state bits and times per entry and the setters in the alphabet: metadata refinement through slot reuse, relinking, directory growth, overwrite, reopen; exhaustive at tiny geometry); fidelity: Trace_Phys predicts the metadata of every directory slot of every recorded image",
          "Values are opaque tokens for TLC; expected quantisation comes from an independent table."),
- "C14": ("model_checking", "5 C14", "CfbLock (TLA+ model of the writer-preferring RwLock and per-call lock programs) model checked with TLC on programs extracted from the real library under the cfg(cfb_verif) instrumented lock; Trace_Lock validates real multi-threaded runs (NonReentrant, mutual exclusion, linearisable lengths, deadlock on stall); any number of threads: CfbLockN (a holder only releases) proved deadlock-free and mutually exclusive for an arbitrary thread set with tlapm (CfbLockN_proofs, 57 obligations), MC_Lock checks that CfbLock on the extracted programs refines it",
+ "C14": ("model_checking", "5 C14", "CfbLock (TLA+ model of the writer-preferring RwLock and per-call lock programs) model checked with TLC on programs extracted from the real library under the cfg(cfb_verif) instrumented lock; Trace_Lock validates real multi-threaded runs (NonReentrant, mutual exclusion, linearisable lengths, deadlock on stall); any number of threads: CfbLockN (a holder only releases) proved deadlock-free and mutually exclusive for an arbitrary thread set with tlapm (CfbLockN_proofs, 57 obligations), MC_Lock checks that CfbLock on the extracted programs refines it; buffered data written back by a handle's drop while readers run; a stall in which every unfinished thread waits for the lock or sits on a guard is a deadlock through another lock",
          "Every interleaving of 2-3 readers and the handle thread over the extracted programs; the schedule-independent NonReentrant rule is checked on every recorded acquisition, so the hazard is caught whether or not a run deadlocks."),
  "C18": ("model_checking", "5 C18", "the same TLC-validated script under every configuration (two runs, std::fs::File, chunked/Interrupted in-memory backends, several max_buffer_size values, V3/V4); Trace_Config (TLA+) requires identical results and byte-identical images within a version/buffer group",
          "Every run is judged against the same deterministic model, so logical outcomes coincide; byte identity is compared step by step with pinned storage times."),
- "C04": ("model_checking", "5 C04", "Gen_Layout (TLA+ 'foreign writer') enumerates / samples legal physical layouts of logical contents with TLC; an independent builder serialises them; TLC trace validation (Trace_File: WF, Abs, CfbTree) judges what the library exposes after strict and permissive open and what it writes afterwards; empty streams with a stale start field, header fields the format leaves to the writer, whole-entry rewrites after removals on every red-black shape",
+ "C04": ("model_checking", "5 C04", "Gen_Layout (TLA+ 'foreign writer') enumerates / samples legal physical layouts of logical contents with TLC; an independent builder serialises them; TLC trace validation (Trace_File: WF, Abs, CfbTree) judges what the library exposes after strict and permissive open and what it writes afterwards; empty streams with a stale start field, header fields the format leaves to the writer, whole-entry rewrites after removals on every red-black shape; design level: MC_RB (every sibling tree a strict reader accepts - any search-tree shape, any colouring without a red-red edge - is mapped into the same class by CfbPhys's insertion and removal: inductive, exhaustive up to 6 names); fidelity: Trace_Phys follows the histories from the foreign start image and predicts every table, link and colour byte the library writes afterwards; two FAT sectors placed anywhere",
          "All layouts of the smallest contents, seeded samples of larger ones: any slot assignment with gaps, any valid red-black shape, any sector and mini-sector placement; lookups under case variants and a mutation history on every image."),
- "C05": ("exploration", "5 C05", "Gen_Corrupt (TLA+) enumerates every field-level corruption of TLC-generated layouts; each damaged image gets every read-only call under catch_unwind, a watchdog and a counting allocator; Trace_Robust (TLA+) states the verdict (no panic, memory bound); plus crash corpus and seeded byte flips",
+ "C05": ("exploration", "5 C05", "Gen_Corrupt (TLA+) enumerates every field-level corruption of TLC-generated layouts; each damaged image gets every read-only call under catch_unwind, a watchdog and a counting allocator; Trace_Robust (TLA+) states the verdict (no panic, memory bound); plus crash corpus and seeded byte flips; valid files with 50,000-entry directories in degenerate shapes (sibling lists, nested storages) read on a 2 MiB stack",
          "The structured part of 'any byte string' (all single field corruptions x value classes, thorough: sampled pairs) is enumerated from the specification; unstructured bytes are a seeded supplement; termination, panics and memory are observed by monitors."),
  "C11": ("exploration", "5 C11", "Gen_Corrupt (TLA+) corruptions that survive permissive open x mutation scripts, under catch_unwind and a per-case watchdog; Trace_Robust states the verdict; coverage classified by corrupted site",
          "Every single field corruption x scripts covering all mutation steps (thorough: every step singly and sampled ordered pairs, sampled pairs of corruptions)."),
@@ -79,7 +79,7 @@ def main():
     m["not_applicable"] = [{"property_id": p["id"], "reason": na.get(p["id"], "machinery for this property is not finished in this round; not claimed")}
                            for p in props if p["id"] not in claimed]
     m["engines"] = [{"name": "tlc-trace-validation", "path": "spec/", "serves_properties": [c["property_id"] for c in checks],
-                     "kind_free_text": "explicit TLA+ specifications (CfbTree, CfbImage, CfbPhys, CfbOpen, CfbFault, CfbDir, CfbHandle, CfbLock, CfbLockN (+ tlapm proofs); generators Gen_Layout / Gen_Deviate / Gen_Corrupt; validators Trace_File / Trace_Phys / Trace_Handle / Trace_Lock / Trace_Config / Trace_Robust) model checked with TLC and bound to the code by trace validation and spec-generated replays"}]
+                     "kind_free_text": "explicit TLA+ specifications (CfbTree, CfbImage, CfbPhys, CfbApi, CfbOpen, CfbFault, CfbDir, CfbHandle, CfbLock, CfbLockN (+ tlapm proofs); generators Gen_Layout / Gen_Deviate / Gen_Corrupt; validators Trace_File / Trace_Phys / Trace_Handle / Trace_Lock / Trace_Config / Trace_Robust) model checked with TLC and bound to the code by trace validation and spec-generated replays"}]
     m["hooks"]["source_commits"] = extra.get("hook_commits", HOOK_COMMITS)
     m["notes"] = "bin/check <id> rebuilds the harness against /repo's working tree (cfg cfb_verif), generates scripts (TLC-generated + seeded), runs them on the real library and lets TLC judge every recorded event."
     json.dump(m, open(os.path.join(ROOT, "MANIFEST.json"), "w"), indent=1)
